@@ -33,7 +33,8 @@ class LogicalMeta(type):
 
     def __and__(cls: T, other: T) -> Union[T, OTHER]:
         if isinstance(other, LogicalType):
-            return other.__rand__(cls)  # noqa
+            # looked up on the class `other`, a builtin base (int, dict, set) would shadow the metaclass's operator
+            return type(other).__rand__(other, cls)
         return cls.__logical_type__.combine("&", cls, other)
 
     def __rand__(cls: T, other: OTHER) -> Union[OTHER, T]:
@@ -43,7 +44,8 @@ class LogicalMeta(type):
         if getattr(other, "__origin__", None) == Union:
             return cls.__logical_type__.combine("|", cls, *other.__args__)
         if isinstance(other, LogicalType):
-            return other.__ror__(cls)  # noqa
+            # looked up on the class `other`, a builtin base (int, dict, set) would shadow the metaclass's operator
+            return type(other).__ror__(other, cls)
         return cls.__logical_type__.combine("|", cls, other)
 
     def __ror__(cls: T, other: OTHER) -> Union[OTHER, T]:
@@ -53,7 +55,8 @@ class LogicalMeta(type):
 
     def __xor__(cls: T, other: OTHER) -> Union[T, OTHER]:
         if isinstance(other, LogicalType):
-            return other.__rxor__(cls)  # noqa
+            # looked up on the class `other`, a builtin base (int, dict, set) would shadow the metaclass's operator
+            return type(other).__rxor__(other, cls)
         return cls.__logical_type__.combine("^", cls, other)
 
     def __rxor__(cls: T, other: OTHER) -> Union[OTHER, T]:
